@@ -12,7 +12,9 @@ LEVEL = "exploration"
 RULE = ("models with symbolic dims (named N/M/K, unnamed, repeated) from vf/modelgen.py in symbolic mode: generation by "
         "execution under TWO bindings at once, so shape-dependent constants are only emitted when both bindings agree; bodies "
         "mix data ops with Shape/Size/Gather/Concat/Slice/Squeeze/Unsqueeze/Cast/Abs/Reshape/Expand/ConstantOfShape/Range/"
-        "ScatterND/MatMul chains, the shape vector lifted to rank 2 and indexed along axis 0, flatten-and-reshape-back of an input "
+        "ScatterND/MatMul chains, the shape vector lifted to rank 2 and indexed along axis 0, integer arithmetic over dims (Add/Sub/Mul/Div/Neg/Min/Max/Mod "
+        "of one-element Shape-derived values) consumed by Abs / ConstantOfShape / Reshape or returned, axes-less Squeeze of a value with symbolic dims "
+        "observed through Shape/Reshape(-1)/Size, flatten-and-reshape-back of an input "
         "whose declared shape repeats one symbol. ONE optimize() per model (default options; on further copies onnx_shape_inference=False, and optimize followed by the exported expand_before_binary_op_rules set), "
         "then every binding of the symbols to {0,1,2,3,7} (all if <=25, else a covering sample incl. all-equal, all-distinct, "
         "any-0, any-1) x 2 input tensors; ORT before vs after per binding. A binding on which the ORIGINAL fails is discarded "
